@@ -469,7 +469,8 @@ class BinarySurrogate(GeneralSurrogate):
         singleT, singleG = len(T) == 1, len(gExtra) == 1
         if broadcast:
             Tsize, gsize = len(T), len(gExtra)
-            T = np.tile(T, (gsize,1))
+            #Both arrays are 1D with len(T)*len(gExtra) entries: T cycles fastest, gExtra is held for len(T) entries
+            T = np.tile(T, gsize)
             gExtra = np.repeat(gExtra, Tsize, axis=0)
         return T, gExtra, singleT, singleG
     
